@@ -1,4 +1,4 @@
-#!/bin/sh
+#!/bin/bash
 # Applies every patch under mutations/ and seeded/*/patch.diff to a scratch copy of /repo,
 # confirms the 30 baseline tests, runs the check(s) expected to catch it (quick tier) and
 # prints one line per patch.  Dev aid / regression of the detection claims in DESIGN.md 8.5-8.8.
@@ -13,6 +13,7 @@ expect() {
     *) echo "";;
   esac
 }
+J=${MUT_JOBS:-3}
 one() {  # name patch checks...
   name="$1"; patch="$2"; shift 2
   T="$(mktemp -d /tmp/vpmutall-XXXXXX)"
@@ -27,5 +28,18 @@ one() {  # name patch checks...
   echo "$name: baseline $base/30;$res"
   rm -rf "$T"
 }
-for p in mutations/*.diff; do n=$(basename "$p" .diff); e=$(expect "$n"); [ -n "$e" ] && one "$n" "$(readlink -f "$p")" $e; done
-for d in seeded/*/; do n=$(basename "$d"); id=${n%%-*}; one "seed-$n" "$(readlink -f "$d/patch.diff")" "$id"; done
+for p in mutations/*.diff; do n=$(basename "$p" .diff); e=$(expect "$n"); [ -n "$e" ] && { one "$n" "$(readlink -f "$p")" $e & }; while [ "$(jobs -r | wc -l)" -ge "$J" ]; do sleep 1; done; done
+# seeds: the checks recorded as catching them in their meta.json (the check named after the property
+# first when it is among them)
+for d in seeded/*/; do
+  n=$(basename "$d")
+  e=$(python3 -c "
+import json,sys
+m=json.load(open('$d/meta.json')); own='$n'.split('-')[0]
+c=[x['check'] for x in m.get('checks',[]) if x.get('caught')]
+c=sorted(set(c), key=lambda x:(x!=own, x))
+print(' '.join(c[:2]))")
+  [ -n "$e" ] && { one "seed-$n" "$(readlink -f "$d/patch.diff")" $e & }
+  while [ "$(jobs -r | wc -l)" -ge "$J" ]; do sleep 1; done
+done
+wait
